@@ -238,9 +238,12 @@ class _RedisConsumer(ConsumerT):
             # mark message as processing
             self.__mark_processing(msg_short_name, full_queue_name, pipe)
             try:
-                await pipe.execute()
+                removed, *_ = await pipe.execute()
             except Exception:  # pragma: no cover  # noqa: BLE001
                 return None
+        if not removed:
+            # another consumer has taken the message after we had read its name
+            return None
         return msg_short_name
 
     async def __get_message_normal(
